@@ -141,7 +141,7 @@ def _h(*parts):
     return harness.digest(json.dumps(parts, sort_keys=True, default=str))
 
 
-def pick_value(seed, var, attempt, is_int):
+def pick_value(seed, var, attempt, is_int, flip=None):
     r = _h('draw', seed, var, attempt)
     a, r = r % 100, r // 100
     b, r = r % 100, r // 100
@@ -156,14 +156,19 @@ def pick_value(seed, var, attempt, is_int):
         mag = 1 + Fraction(1 + n % 23, 8)                   # (1,4)
     else:
         mag = 4 + Fraction(1 + n % 41, 7)                   # (4,10)
-    return -mag if a < 35 else mag
+    neg = a < 40
+    if flip is not None and attempt < 6 and not is_int:
+        # consecutive draws of one comparison alternate the sign of every variable (when the conditions allow it)
+        group, j = flip
+        neg = (_h('sign', group, var) + j) % 2 == 1
+    return -mag if neg else mag
 
 
 class DrawFailed(Exception):
     pass
 
 
-def draw_env(seed, variables, conds, int_vars, ev, fixed=None, tries=300):
+def draw_env(seed, variables, conds, int_vars, ev, fixed=None, tries=300, flip=None):
     """Deterministic rejection sampling of rational values satisfying the conditions.
     Returns (env: name -> Fraction, ignored conditions)."""
     variables = sorted(set(variables))
@@ -178,7 +183,7 @@ def draw_env(seed, variables, conds, int_vars, ev, fixed=None, tries=300):
                 if fixed and v in fixed:
                     env[v] = Fraction(fixed[v])
                 else:
-                    env[v] = pick_value(seed, v, attempt, v in int_vars)
+                    env[v] = pick_value(seed, v, attempt, v in int_vars, flip)
             menv = {k: mpf(x.numerator) / x.denominator for k, x in env.items()}
             ok = True
             for c in eqs:
@@ -441,7 +446,8 @@ class Comparator:
                         env_fr[v] = pick_value(0, v, 0, v in self.int_vars)
             else:
                 try:
-                    env_fr, ign = draw_env(d, fv - set(self.ev.defs), self.conds, self.int_vars, self.ev)
+                    env_fr, ign = draw_env(d, fv - set(self.ev.defs), self.conds, self.int_vars, self.ev,
+                                           flip=(seeds[0], i))
                 except DrawFailed as ex:
                     res.reasons.append('draw-failed')
                     res.detail = str(ex)
@@ -807,7 +813,57 @@ RULE_BUILDERS = {
     'SimplifyPower': lambda p: rules.SimplifyPower(),
     'ReduceLimit': lambda p: rules.ReduceLimit(),
     'DefiniteIntegralIdentity': lambda p: rules.DefiniteIntegralIdentity(),
+    'OnSubterm:ReduceLimit': lambda p: rules.OnSubterm(rules.ReduceLimit()),
+    'OnSubterm:DerivativeSimplify': lambda p: rules.OnSubterm(rules.DerivativeSimplify()),
 }
+FULLSIMP_COMPONENTS = ['Simplify', 'OnSubterm:SimplifyPower', 'OnSubterm:ReduceLimit', 'OnSubterm:Linearity',
+                       'OnSubterm:DerivativeSimplify']
+
+
+def minimal_failing_subterm(e, test, limit=40):
+    """Smallest proper sub-term (by size, then text) on which `test` still fails; e itself if none does."""
+    seen, cands = set(), []
+    for t in L.subterms(e):
+        k = str(t)
+        if k not in seen and t.ty not in (L.VAR, L.CONST, L.INF):
+            seen.add(k)
+            cands.append(t)
+    cands.sort(key=lambda t: (t.size(), str(t)))
+    for t in cands[:limit]:
+        if t.size() >= e.size():
+            break
+        try:
+            if test(t):
+                return t
+        except (Inconc, CaseInvalid, Timeout):
+            continue
+        except Exception:
+            continue
+    return e
+
+
+def head_feature(t):
+    if t.ty == L.OP:
+        if len(t.args) == 1:
+            return 'uminus'
+        if t.op == '^':
+            b, x = t.args
+            if b.ty == L.OP and b.op == '^':
+                return 'power-of-power'
+            if b.ty == L.OP and b.op == '/' and b.args[1].ty == L.OP and b.args[1].op == '^':
+                return 'power-of-power'
+            if x.ty == L.CONST and isinstance(x.val, int):
+                return 'int-power'
+            if x.ty == L.CONST:
+                return 'rational-power'
+            return 'symbolic-power'
+        return 'op' + t.op
+    if t.ty == L.FUN:
+        return str(t.func_name)
+    if t.ty == L.LIMIT:
+        return 'limit-at-infinity' if t.lim.ty == L.INF else 'finite-limit'
+    return {L.INTEGRAL: 'integral', L.SUMMATION: 'sum', L.DERIV: 'deriv', L.EVAL_AT: 'evalat',
+            L.INDEFINITEINTEGRAL: 'indef-integral'}.get(t.ty, 'other')
 
 
 def _first(e, ty, pred=None):
@@ -856,7 +912,58 @@ def monotone_on(g, var, lo_e, hi_e, env_fr):
         return 'unknown'
 
 
-def feature_of(rname, e, params, after, env_fr=None):
+def _rule_changes_value(rname, params, t, ctx, conds):
+    with quiet(), time_limit(10):
+        aft = RULE_BUILDERS[rname](params).eval(copy.deepcopy(t), ctx)
+    if not hasattr(aft, 'ty') or str(aft) == str(t):
+        return False
+    c = Comparator({}, conds or [], {}, int_variables([t, aft]), limit_s=2.0)
+    return c.compare(t, aft, [11, 12, 13]).verdict == 'differ'
+
+
+def _two_sided(t):
+    """The same term with the direction of every limit removed (built with the public constructors)."""
+    if t.ty == L.LIMIT:
+        return expr.Limit(t.var, _two_sided(t.lim), _two_sided(t.body))
+    if t.ty == L.OP:
+        return expr.Op(t.op, *[_two_sided(a) for a in t.args])
+    if t.ty == L.FUN:
+        return expr.Fun(t.func_name, *[_two_sided(a) for a in t.args])
+    if t.ty == L.INTEGRAL:
+        return expr.Integral(t.var, _two_sided(t.lower), _two_sided(t.upper), _two_sided(t.body))
+    return t
+
+
+def attribute(rname, e, params, after, env_fr, ctx, conds):
+    """(call site, feature) for the signature: composite rules are attributed to the component rule that alone
+    reproduces the value change on the smallest failing sub-term, so that one root cause gets one signature."""
+    def safe(rn, t, pr=None):
+        try:
+            return _rule_changes_value(rn, pr or {}, t, ctx, conds)
+        except Exception:
+            return False
+    if rname == 'Equation':
+        try:
+            old = P(params['old_expr']) if params.get('old_expr') else e
+            new = P(params['new_expr'])
+            for t in (old, new):
+                if safe('FullSimplify', t):
+                    return attribute('FullSimplify', t, {}, None, env_fr, ctx, conds)
+        except CaseInvalid:
+            pass
+        return 'Equation', feature_of(rname, e, params, after, env_fr, ctx, conds)
+    if rname == 'FullSimplify':
+        sub = minimal_failing_subterm(e, lambda t: _rule_changes_value('FullSimplify', {}, t, ctx, conds))
+        for variant in (sub, _two_sided(sub)):
+            for comp in FULLSIMP_COMPONENTS:
+                if safe(comp, variant):
+                    sub2 = minimal_failing_subterm(variant, lambda t: _rule_changes_value(comp, {}, t, ctx, conds))
+                    return comp.replace('OnSubterm:', ''), head_feature(sub2)
+        return 'FullSimplify', head_feature(sub)
+    return rname.replace('OnSubterm:', ''), feature_of(rname, e, params, after, env_fr, ctx, conds)
+
+
+def feature_of(rname, e, params, after, env_fr=None, ctx=None, conds=None):
     """A coarse input feature that separates root causes at one rule (used in signatures)."""
     env_fr = env_fr or {}
 
@@ -933,25 +1040,20 @@ def feature_of(rname, e, params, after, env_fr=None):
         return 'source-other'
     if rname == 'SplitRegion':
         return 'limit-form' if L.contains_ty(after, (L.LIMIT,)) else 'plain'
-    if rname in ('Simplify', 'FullSimplify', 'Equation', 'ExpandPolynomial', 'OnSubterm:SimplifyPower', 'SimplifyPower'):
-        feats = []
-        for t in L.subterms(e):
-            if t.ty == L.OP and t.op == '^' and len(t.args) == 2:
-                b, x = t.args
-                if b.ty == L.OP and b.op == '^':
-                    feats.append('power-of-power')
-                elif not (x.ty == L.CONST and isinstance(x.val, int)):
-                    feats.append('nonint-power')
-            elif t.ty == L.FUN and str(t.func_name) in ('sqrt', 'abs', 'log'):
-                feats.append(str(t.func_name))
-        for f in ('power-of-power', 'sqrt', 'abs', 'nonint-power', 'log'):
+    if rname in ('Simplify', 'FullSimplify', 'ExpandPolynomial', 'OnSubterm:SimplifyPower', 'SimplifyPower', 'ReduceLimit',
+                 'Linearity', 'OnSubterm:Linearity') and ctx is not None:
+        return head_feature(minimal_failing_subterm(e, lambda t: _rule_changes_value(rname, params, t, ctx, conds)))
+    if rname == 'Equation':
+        try:
+            old = P(params['old_expr']) if params.get('old_expr') else e
+        except CaseInvalid:
+            old = e
+        big = old if old.size() >= 2 else P(params.get('new_expr', 'x'))
+        feats = [head_feature(t) for t in L.subterms(big) if t.ty in (L.OP, L.FUN)]
+        for f in ('power-of-power', 'rational-power', 'symbolic-power', 'sqrt', 'abs', 'log', 'exp', 'atan'):
             if f in feats:
                 return f
-        if has(L.LIMIT):
-            return 'limit'
-        if has(L.INTEGRAL):
-            return 'integral'
-        return 'algebraic'
+        return feats[0] if feats else 'other'
     if rname == 'ReduceLimit':
         return 'at-infinity' if 'oo' in str(getattr(e, 'lim', '')) else 'finite'
     return 'any'
@@ -1011,7 +1113,11 @@ def run_rule_case(case, H, limit_s=5.0):
         H.inconc('gen:' + r.split(':')[0])
     if res.verdict == 'differ':
         env0 = {k: Fraction(v) for k, v in (res.draws[0] if res.draws else {}).items()}
-        H.violation('rule:value-changed:%s:%s' % (rname, feature_of(rname, e, params, after, env0)),
+        if rname == 'DerivativeSimplify' and e.ty == L.DERIV:
+            sig = 'deriv:wrong-derivative:%s' % deriv_feature(e.body, str(e.var), ctx, conds)
+        else:
+            sig = 'rule:value-changed:%s:%s' % attribute(rname, e, params, after, env0, ctx, conds)
+        H.violation(sig,
                     dict(case, draws=res.draws),
                     'rule %s %s maps\n  %s\nto\n  %s\nunder conditions %s\n%s' % (
                         rname, json.dumps(params, sort_keys=True), e, after, cond_strs, res.detail))
@@ -1166,6 +1272,17 @@ def run_roundtrip_case(case, H):
 
 
 # ---------------------------------------------------------------- deriv against mpmath.diff
+def deriv_feature(e, var, ctx, conds):
+    def test(t):
+        if var not in L.free_vars(t):
+            return False
+        with quiet(), time_limit(10):
+            d = rules.deriv(var, copy.deepcopy(t), ctx)
+        c = Comparator({}, conds, {}, int_variables([t]), limit_s=2.0)
+        return c.compare(expr.Deriv(var, t), d, [11, 12, 13]).verdict == 'differ'
+    return head_feature(minimal_failing_subterm(e, test))
+
+
 def run_deriv_case(case, H, limit_s=5.0):
     e = P(str(case.get('e')))
     var = str(case.get('var', 'x'))
@@ -1192,13 +1309,7 @@ def run_deriv_case(case, H, limit_s=5.0):
     for r in sorted(set(res.reasons)):
         H.inconc('deriv:' + r.split(':')[0])
     if res.verdict == 'differ':
-        feat = 'other'
-        for t in L.subterms(e):
-            if t.ty == L.FUN and len(t.args) >= 1 and var in L.free_vars(t):
-                feat = str(t.func_name)
-                break
-            if t.ty == L.OP and t.op in ('^', '/') and var in L.free_vars(t):
-                feat = 'op' + t.op
+        feat = deriv_feature(e, var, ctx, conds)
         H.violation('deriv:wrong-derivative:%s' % feat, dict(case, draws=res.draws),
                     'deriv(%s, %s) = %s\n%s' % (var, e, d, res.detail))
     H.case(case, nontrivial=res.verdict in ('same', 'differ') and var in L.free_vars(e), klass='deriv:' + res.verdict)
@@ -1224,14 +1335,18 @@ def run_normalize_case(case, H, limit_s=5.0):
         return
     check_roundtrip(n1, H, case, 'result-of-normalize')
     if n1 != n2:
-        H.violation('normalize:not-idempotent:%s' % feature_of('Simplify', e, {}, n1), case,
+        H.violation('normalize:not-idempotent:%s' % head_feature(minimal_failing_subterm(
+            e, lambda t: poly.normalize(poly.normalize(copy.deepcopy(t), cd), cd) != poly.normalize(copy.deepcopy(t), cd))), case,
                     'normalize(%s) = %s but normalizing again gives %s' % (e, n1, n2))
     cmpo = Comparator({}, conds, {}, int_variables([e] + conds), limit_s=limit_s)
     res = cmpo.compare(e, n1, seeds, explicit_draws=case.get('draws'))
     for r in sorted(set(res.reasons)):
         H.inconc('normalize:' + r.split(':')[0])
     if res.verdict == 'differ':
-        H.violation('normalize:value-changed:%s' % feature_of('Simplify', e, {}, n1), dict(case, draws=res.draws),
+        nctx = context.Context(base_context())
+        for c in conds:
+            nctx.add_condition(c)
+        H.violation('rule:value-changed:Simplify:%s' % feature_of('Simplify', e, {}, n1, None, nctx, conds), dict(case, draws=res.draws),
                     'normalize(%s) = %s under %s\n%s' % (e, n1, [str(c) for c in conds], res.detail))
     H.case(case, nontrivial=(str(n1) != str(e) and res.verdict in ('same', 'differ')), klass='normalize:' + res.verdict)
 
@@ -1304,14 +1419,30 @@ def run_bounds_case(case, H):
         out = None
     if out is not None:
         env_fr, (bad, v, lo, hi) = out
-        feat = 'other'
-        for t in L.subterms(e):
-            if t.ty == L.OP and len(t.args) == 2:
-                feat = 'op' + t.op
-                break
-            if t.ty == L.FUN and t.args:
-                feat = str(t.func_name)
-                break
+        def outside(t):
+            with quiet(), time_limit(10):
+                ivt = cd.get_bounds_for_expr(copy.deepcopy(t))
+            if ivt is None:
+                return False
+            with mp.workdps(30):
+                env = {k: mpf(x.numerator) / x.denominator for k, x in env_fr.items()}
+                val = ev.value(t, env)
+                lo_t = ev.value_or_inf(ivt.start, {})
+                hi_t = ev.value_or_inf(ivt.end, {})
+                eps_t = mpf(10) ** (-9) * (1 + abs(val))
+                return val < lo_t - eps_t or val > hi_t + eps_t
+        sub = minimal_failing_subterm(e, outside)
+        feat = head_feature(sub)
+        if sub.ty == L.OP and len(sub.args) == 2 and (sub.op == '/' or (sub.op == '^' and sub.args[1].ty == L.CONST and sub.args[1].val < 0)):
+            den = sub.args[1] if sub.op == '/' else sub.args[0]
+            try:
+                with quiet():
+                    ivd = cd.get_bounds_for_expr(copy.deepcopy(den))
+                with mp.workdps(30):
+                    if ev.value_or_inf(ivd.start, {}) <= 0 <= ev.value_or_inf(ivd.end, {}):
+                        feat = 'reciprocal-of-interval-containing-zero'
+            except Exception:
+                pass
         H.violation('bounds:value-outside-interval:%s' % feat,
                     dict(case, draws=[{k: str(x) for k, x in sorted(env_fr.items())}]),
                     'get_bounds_for_expr(%s) under %s is %s, but at %s the value is %s' % (
@@ -1628,8 +1759,8 @@ def strategies():
 
     @st.composite
     def c_simppow(draw):
-        p = draw(st.sampled_from(['2', '3', '1/2', '-1', '-2', 'a', '1/3', '4', '3/2', '-1/2', 'n', '2 * n']))
-        q = draw(st.sampled_from(['2', '3', '1/2', '-1', '-2', 'a', '1/3', '4', '3/2', '-1/2', 'n', '1/4']))
+        p = draw(st.sampled_from(['2', '2', '4', '-2', '3', '1/2', 'a', 'n', '2 * n', '1/3', '-1', '6']))
+        q = draw(st.sampled_from(['1/2', '1/2', '3/2', '1/4', '-1/2', '1/3', '2', '3', 'a', '-1', 'n', '1/6']))
         c = draw(st.sampled_from(['2', '1/2', '3', '-2', '-1', '10']))
         base = draw(st.sampled_from(['x', 'x', '(x - 1)', 'sin(x)', '(x + a)', '-x', 'cos(x)']))
         e = draw(st.sampled_from(['(%(b)s ^ %(p)s) ^ %(q)s', '(1 / %(b)s ^ %(p)s) ^ %(q)s', '%(c)s ^ (x + %(p)s)', '%(c)s ^ (x - %(p)s)',
@@ -1651,6 +1782,7 @@ def strategies():
             pt = draw(st.sampled_from(['0', '1', '-1', '2', 'pi / 2', '0 +', '0 -', '1 -', 'a']))
             e = 'LIM {x -> %s}. %s' % (pt, draw(st.one_of(pointwise(leaves=4), st.sampled_from(
                 ['sin(x) / x', '(x ^ 2 - 1) / (x - 1)', 'x * log(x)', 'abs(x) / x', '1 / x', 'exp(-1 / x)', 'tan(x)', 'x ^ x', 'atan(1 / x)',
+                 'x / sin(x)', 'x / tan(x)', 'x / atan(x)', 'x ^ 2 / sin(x) ^ 2', 'x / asin(x)', '(x - 1) / log(x)', 'x / sinh(x)',
                  '(1 - cos(x)) / x ^ 2', 'x / abs(x)', 'log(x) * (x - 1)', 'sin(1 / x) * x']))))
         return {'kind': 'rule', 'rule': draw(st.sampled_from(['ReduceLimit', 'ReduceLimit', 'FullSimplify'])), 'e': e, 'params': {},
                 'conds': draw(st.lists(st.sampled_from(['a > 0', 'a < 0', 'a > 1']), max_size=1)), 'seeds': draw(seeds)}
